@@ -93,7 +93,7 @@ func init() {
 		ID:    "C17",
 		Level: "fault_enumeration",
 		Rule: "fault-position enumeration (choice tree, failure = deviation): for every import-bearing template and 8 entry configurations (DecorateFile with goast failing in its inner package-name resolver / wrapped as a whole, gotypes, Decorator.Parse; Restorer.Fprint with imports present / removed / alias overrides, RestoreFile), " +
-			"every position in the resolver call sequence is failed, in histories fail@k1 -> retry, fail@k1 -> fail@k2 -> retry, and three failures before the retry (fresh decorator/restorer, same input, shared syntax resolver instance); " +
+			"every position in the resolver call sequence is failed, in histories fail@k1 -> retry, fail@k1 -> fail@k2 -> retry, and three (thorough: four) failures before the retry (fresh decorator/restorer, same input, shared syntax resolver instance); " +
 			"oracle: error returned and errors.Is(injected), no panic, nothing written, no tree returned, input ast/dst snapshot unchanged, final retry equals the failure-free result; non-trivial = execution with at least one injected failure",
 		Assumptions: []string{"the resolver call order inside the restorer is a map order: every call position of the order that occurred is failed, map orders themselves are explored under C16"},
 		Units: func(tier string) []string {
@@ -109,6 +109,9 @@ func init() {
 			ts := c17Templates()
 			t, mode := ts[unit/len(c17Modes)], c17Modes[unit%len(c17Modes)]
 			bound := 3
+			if ctx.Thorough() {
+				bound = 4
+			}
 			tree := &explore.Tree{Bound: bound, Stop: ctx.Expired}
 			tree.Explore(func(c *explore.Chooser) {
 				cs := c17Case{Template: t, Mode: mode}
@@ -336,7 +339,7 @@ func c17Exec(cs c17Case, c *explore.Chooser) core.Outcome {
 	in := makeInput()
 	snap := inputSnap(in)
 	shared := goast.WithResolver(simple.New(stdNames))
-	for n := 0; n < 4; n++ {
+	for n := 0; n < 6; n++ {
 		ctl := &faultCtl{c: c}
 		res, err, pan, wrote := attempt(ctl, shared, in)
 		if pan != "" {
